@@ -2091,7 +2091,9 @@ pub fn decompress_with_limit(
         // If TINFL_FLAG_IGNORE_ADLER32 is enabled, ignore the checksum.
         false
     };
-    if need_adler && status as i32 >= 0 {
+    // `FailedCannotMakeProgress` is a suspension too: the bytes written by this call are kept by
+    // the caller, who may come back with more input.
+    if need_adler && (status as i32 >= 0 || status == TINFLStatus::FailedCannotMakeProgress) {
         let out_buf_pos = out_buf.position();
         r.check_adler32 = update_adler32(r.check_adler32, &out_buf.get_ref()[out_pos..out_buf_pos]);
 
